@@ -500,6 +500,14 @@ def run_shard(shard, ctx):
     n, variant = shard['n'], shard['variant']
     nmask = n + 1 if variant == 'name' else n
     for code in range(shard['lo'], shard['hi']):
+        if variant in RANGE_NAME_VARIANTS and ctx.tier == 'quick' and \
+                code and not any(
+                    set(named_pair(variant, n)) <= set(d)
+                    for d in edges_of(code, n)):
+            # no formula of this graph uses the name: the graph is the
+            # 'direct' variant's (quick tier; the thorough tier runs it)
+            ctx.skip('named-range-variant-without-use-of-the-name')
+            continue
         for mask in range(1, 2 ** nmask):
             for evaluated in (False, True):
                 run_config(code, n, variant, mask, evaluated, ctx)
